@@ -13,7 +13,11 @@ search:  per-chain histories under pool=None vs deep-copying map, chunked copies
          chain vs every other chain; a fresh interpreter that creates its pools (fork and spawn) before
          anything of epsie exists, then builds the samplers (reset_after_swap, adaptive proposals, dynamic
          ladder) and compares serial with pooled runs; resets compared with the values each proposal was
-         constructed with; unrelated proposals constructed in the process; class-level attributes before / after
+         constructed with; unrelated proposals constructed in the process; class-level attributes before / after;
+         sequences of run / clear / run(0) / state reloads through every pool kind, everything readable compared
+         after every run; the caller's input objects (start arrays, betas, proposals, model) digested before /
+         after every construction, start and run for every proposal family, and samplers given the SAME input
+         objects against a sampler with copies of its own
 """
 import streams
 import gen_sharing as G
@@ -46,6 +50,7 @@ def run(chk, tier, proof_ok):
     for t in [tier] + (['thorough'] if broken and tier != 'thorough' else []):
         started = pf if pf['tier'] == t else streams.poolfirst_start(chk, t)
         found = streams.class_state_search(chk, t)
+        found += streams.inputs_search(chk, t)
         found += streams.c07_search(chk, t)
         found += streams.poolfirst_search(chk, t, started)
         findings += found
